@@ -36,6 +36,8 @@ type World struct {
 	impls     []ImplSpec
 	inits     []GhostInit
 	monitors  map[string]*FuncContract
+	closeOnly map[string]bool // "pkgpath.Type.field"
+	protoErrs []string        // violations of the syntactic close-only discipline
 }
 
 // Ty is the type of a spec expression: a Go type, or a spec-only SMT sort.
@@ -140,6 +142,7 @@ func LoadWorld(dir string, patterns []string, extDir string, overlay map[string]
 	if err != nil {
 		return nil, err
 	}
+	defer w.checkCloseOnly()
 	if extDir != "" {
 		ms, _ := filepath.Glob(filepath.Join(extDir, "*.gowp"))
 		sort.Strings(ms)
@@ -238,6 +241,9 @@ func (w *World) addSpecFile(path, pkgPath string) error {
 		w.sorts[s] = true
 	}
 	for _, gf := range sf.Ghosts {
+		if old, dup := w.ghosts[gf.Name]; dup && (old.Type != gf.Type || old.Var != gf.Var) {
+			return fmt.Errorf("%s: ghost %s declared twice with different types (%s / %s)", path, gf.Name, old.Type, gf.Type)
+		}
 		w.ghosts[gf.Name] = gf
 	}
 	for _, ig := range sf.Ignores {
@@ -246,6 +252,16 @@ func (w *World) addSpecFile(path, pkgPath string) error {
 			return err
 		}
 		w.ignores = append(w.ignores, re)
+	}
+	for _, co := range sf.CloseOnly {
+		if w.closeOnly == nil {
+			w.closeOnly = map[string]bool{}
+		}
+		pk := co.Pkg
+		if pk == "" {
+			pk = pkgPath
+		}
+		w.closeOnly[pk+"."+co.Type+"."+co.Field] = true
 	}
 	w.impls = append(w.impls, sf.Implements...)
 	w.inits = append(w.inits, sf.Inits...)
@@ -497,4 +513,109 @@ func (w *World) objectOf(fn *ssa.Function, id *ast.Ident) types.Object {
 		return nil
 	}
 	return p.TypesInfo.ObjectOf(id)
+}
+
+// closeOnlyField reports whether v is (a load of) a struct field declared closeonly.
+func (w *World) closeOnlyField(v ssa.Value) bool {
+	if len(w.closeOnly) == 0 {
+		return false
+	}
+	var st types.Type
+	var idx int
+	switch x := v.(type) {
+	case *ssa.UnOp:
+		fa, ok := x.X.(*ssa.FieldAddr)
+		if !ok || x.Op != token.MUL {
+			return false
+		}
+		st, idx = fa.X.Type().Underlying().(*types.Pointer).Elem(), fa.Field
+	case *ssa.Field:
+		st, idx = x.X.Type(), x.Field
+	default:
+		return false
+	}
+	return w.closeOnly[fieldKeyOf(st, idx)]
+}
+
+func fieldKeyOf(st types.Type, idx int) string {
+	n, ok := types.Unalias(st).(*types.Named)
+	if !ok || n.Obj().Pkg() == nil {
+		return ""
+	}
+	s, ok := n.Underlying().(*types.Struct)
+	if !ok || idx >= s.NumFields() {
+		return ""
+	}
+	return n.Obj().Pkg().Path() + "." + n.Obj().Name() + "." + s.Field(idx).Name()
+}
+
+// checkCloseOnly enforces the discipline behind closeonly fields: the field is written only with a freshly made
+// channel, and its value is used only to receive from it (select or <-), to close it, or in debug references.
+func (w *World) checkCloseOnly() {
+	if len(w.closeOnly) == 0 {
+		return
+	}
+	bad := func(fn *ssa.Function, ins ssa.Instruction, why string) {
+		w.protoErrs = append(w.protoErrs, fmt.Sprintf("%s: %s (%s)", funcKey(fn), why, w.fset.Position(ins.Pos())))
+	}
+	useOK := func(fn *ssa.Function, v ssa.Value) {
+		for _, r := range *v.Referrers() {
+			switch u := r.(type) {
+			case *ssa.DebugRef:
+			case *ssa.UnOp:
+				if u.Op != token.ARROW {
+					bad(fn, u, "close-only channel used in "+u.String())
+				}
+			case *ssa.Select:
+				for _, st := range u.States {
+					if st.Chan == v && st.Dir != types.RecvOnly {
+						bad(fn, u, "send on a close-only channel")
+					}
+				}
+			case *ssa.Call:
+				if b, ok := u.Call.Value.(*ssa.Builtin); !ok || b.Name() != "close" {
+					bad(fn, u, "close-only channel passed to "+u.Call.Value.Name())
+				}
+			default:
+				bad(fn, r, "close-only channel escapes through "+r.String())
+			}
+		}
+	}
+	for _, fn := range w.funcs {
+		if fn.Pkg == nil {
+			continue
+		}
+		for _, b := range fn.Blocks {
+			for _, ins := range b.Instrs {
+				switch x := ins.(type) {
+				case *ssa.FieldAddr:
+					if !w.closeOnly[fieldKeyOf(x.X.Type().Underlying().(*types.Pointer).Elem(), x.Field)] {
+						continue
+					}
+					for _, r := range *x.Referrers() {
+						switch u := r.(type) {
+						case *ssa.DebugRef:
+						case *ssa.UnOp:
+							if u.Op == token.MUL {
+								useOK(fn, u)
+							} else {
+								bad(fn, u, "address of a close-only field used")
+							}
+						case *ssa.Store:
+							if _, mk := u.Val.(*ssa.MakeChan); !mk || u.Addr != x {
+								bad(fn, u, "close-only field assigned something other than a new channel")
+							}
+						default:
+							bad(fn, r, "address of a close-only field escapes")
+						}
+					}
+				case *ssa.Field:
+					if w.closeOnly[fieldKeyOf(x.X.Type(), x.Field)] {
+						useOK(fn, x)
+					}
+				}
+			}
+		}
+	}
+	sort.Strings(w.protoErrs)
 }
